@@ -1,3 +1,8 @@
 H("c04_tsan", "C04", "tsan", ["harness/c04_tsan.cc"], sdk=["common", "version", "resource", "trace", "logs"], aux=True, real_clock=True,
   args={"quick": ["300"], "thorough": ["5000"]},
-  note="free-running ThreadSanitizer pass: three threads run every span mutator and End on ONE span, emit logs and start children (sampling; looks for unsynchronised accesses to plain memory that the cooperative scheduler cannot separate from the preceding lock operation)")
+  note="free-running ThreadSanitizer pass: three threads run every span mutator (all four SDK AddEvent bodies, SetAttribute with scalar / string / array values, UpdateName, SetStatus), IsRecording / GetContext and End on ONE span, emit logs and start children (sampling; looks for unsynchronised accesses to plain memory that the cooperative scheduler cannot separate from the preceding lock operation)")
+# Span::AddLink / AddLinks only exist under ABI v2: the same source (and the SDK) compiled a second time with the ABI macro redefined.
+H("c04_tsan_abi2", "C04", "tsan", ["harness/c04_tsan.cc"], sdk=["common", "version", "resource", "trace", "logs"], aux=True, real_clock=True,
+  cxxflags=["-UOPENTELEMETRY_ABI_VERSION_NO", "-DOPENTELEMETRY_ABI_VERSION_NO=2"],
+  args={"quick": ["300"], "thorough": ["5000"]},
+  note="the same free-running ThreadSanitizer pass built for ABI v2: Span::AddLink and Span::AddLinks join the rotation of operations that three threads run on ONE span")
